@@ -324,6 +324,11 @@ pub trait Writer {
         length: u64,
         format: Format,
     ) -> Result<()> {
+        // 32-bit lengths of 0xffff_fff0 and above are reserved, and would be
+        // read back as an escape code rather than a length.
+        if format == Format::Dwarf32 && length >= 0xffff_fff0 {
+            return Err(Error::ValueTooLarge);
+        }
         self.write_udata_at(offset.0, length, format.word_size())
     }
 }
